@@ -14,7 +14,7 @@ for pid, v in [("C07", "c07_verdicts"), ("C13", "c13_verdicts")]:
         check_imports=["Model.Block", "Model.Forkable", "Model.Burst", "Model.Hub", "Model.CursorResolver", "Model.Joining", "Check.Burst_Check", "Check.C07_Check"],
         case_type="c07_case", verdicts=v, scope="c07_in_scope",
         codes={1: "model-mismatch", 2: "property-checker-rejects-impl", 3: "mismatch+property", 4: "impl-hang-or-panic",
-               5: "delivered-block-is-not-the-stored-block"},
+               5: "delivered-block-is-not-the-stored-block", 6: "target-cursor-beyond-stop-block-S-not-delivered"},
         property_modules=[], theorems=[], proof_files=list(J_FILES),
         n_quick=96, n_thorough=4000, n_escalate=600, procs=12,
         rule=RULE,
@@ -24,6 +24,4 @@ for pid, v in [("C07", "c07_verdicts"), ("C13", "c13_verdicts")]:
         trusted_base=["hub growth is interleaved with the stream only at user-handler calls (pauses) and when the stream is live and idle; the idle detection "
                       "is time based (25 ms) but cannot change the delivered sequence once the stream is live",
                       "verif hook stream.VerifFileSourceOptions (small bundles) and hub.VerifSubscribers"],
-        assumptions=["files and hub together cover the chain; consensus-consistent finality; cursors minted by the same history"],
-        codes={1: "model-mismatch", 2: "property-checker-rejects-impl", 3: "mismatch+property", 4: "impl-panic-or-hang",
-               6: "target-cursor-beyond-stop-block-S-not-delivered"})
+        assumptions=["files and hub together cover the chain; consensus-consistent finality; cursors minted by the same history"])
